@@ -174,6 +174,9 @@ pub fn nest_families() -> Vec<(&'static str, &'static str, &'static str, &'stati
         ("binary", "#(", "(a + ", ") * b", "c"),
         ("unary", "#(", "-(", ")", "x"),
         ("dotcall", "#", "a.b(", ").c()", "x"),
+        ("chain2", "#", "a.b.c(", ")", "1"),
+        ("chain2long", "#", "configuration_registry.default_profile.with_overrides(", ")", "1"),
+        ("mathrows", "$", "mat(", ", 2; 3, 4)", "1"),
         ("chainarg", "#", "a.b(c.d(", "))", "x"),
         ("mathdelim", "$", "(", ")", "x"),
         ("mathcall", "$", "vec(", ")", "x"),
